@@ -88,7 +88,7 @@ def streams(seed, tier):
                 cases.append(mk(rng.randrange(2), nm, True, name=[b, a]))
                 cases.append(mk(rng.randrange(2), nm, False, name=[a + a, a + a]))
         # names that differ in letter case only, in a prefix / suffix only, or not at all
-        for a, b in [("foo", "FOO"), ("x", "X"), ("Arg", "ARG"), ("ab", "aB"), ("abc", "abd"), ("abc", "ab"), ("", " "), ("\u00e9", "\u00c9"), ("\u00e9", "e\u0301"), ("K", "\u212a"), ("same", "same")]:
+        for a, b in [("A ", "B"), ("A", " B"), ("x\n", "y"), ("\tq", "r "), (" ", " "), ("foo", "FOO"), ("x", "X"), ("Arg", "ARG"), ("ab", "aB"), ("abc", "abd"), ("abc", "ab"), ("", " "), ("\u00e9", "\u00c9"), ("\u00e9", "e\u0301"), ("K", "\u212a"), ("same", "same")]:
             cases.append(mk(rng.randrange(2), nm, True, name=[b, a]))
             cases.append(mk(rng.randrange(2), nm, True, name=[a, b]))
     out.append(Stream("scalar-by-name", "run", "scalar.check", cases,
